@@ -432,6 +432,8 @@ def cases(tier, seed):
         lo = lo[:16]
     for r in lo:
         add("lazyorder", font=r["path"], perms=5 if T else 3)
+    for r in (lo if T else lo[:8]):
+        add("lazyorder", font=r["path"], perms=4 if T else 3, edits=1)
     # fonts compiled from the corpus feature files: FeatureParams (featureNames, cvParameters, size), mixed
     # ValueFormats, class-based subtables ... read back through the lazy OTL readers
     feas = sorted(p for p in corpus.inventory()["other"]["fea"] if p.startswith("feaLib/data/") and p.count("/") == 2)
@@ -447,9 +449,10 @@ def cases(tier, seed):
     others = [p for p in feas if p not in params]
     rnd.shuffle(others)
     for p in params + others[: (len(others) if T else 10)]:
-        add("lazyorder", font="fea:" + p, perms=3 if T else 2)
-    for k in range(4 if T else 2):
-        add("lazyorder", font="<built>", member=k, perms=3)
+        add("lazyorder", font="fea:" + p, perms=3 if T else 2, own_output=1)
+    for k in range(8 if T else 4):
+        add("lazyorder", font="<built>", member=k, perms=3, own_output=1)
+        add("lazyorder", font="<built>", member=k, perms=3, edits=1)
     for r in corpus.fonts("bin", lambda r: r["member"] is not None)[:4 if T else 2]:
         add("lazyorder", font=r["path"], member=r["member"], perms=3)
 
@@ -504,8 +507,9 @@ def run_case(case, ctx):
 
 
 # ------------------------------------------------------------------ determinism across interpreters
+TZS = ("EST5EDT", "IST-5:30", "NZST-12NZDT", "UTC0")      # POSIX forms: no zoneinfo database needed
 EPOCH_FREE = ("recompile", "subset", "instance", "cu2qu", "tablexml")
-PERTURB_ENV = {"TZ": "Pacific/Kiritimati", "LANG": "tr_TR.UTF-8", "LC_ALL": "C", "LANGUAGE": "tr", "HOME": "/nonexistent-vmon-home",
+PERTURB_ENV = {"TZ": "<+14>-14", "LANG": "tr_TR.UTF-8", "LC_ALL": "C", "LANGUAGE": "tr", "HOME": "/nonexistent-vmon-home",
                "USER": "vmon-other", "LOGNAME": "vmon-other", "COLUMNS": "33", "TERM": "dumb", "PYTHONUTF8": "0",
                "HOSTNAME": "vmon-host-b"}
 CLOCK_SHIFT = 400 * 86400
@@ -576,8 +580,9 @@ def run_seeds(case, ctx, rnd):
     for i, s in enumerate(seeds[1:-1]):
         # the first extra interpreter also runs the jobs in the opposite order: what a job produces must
         # not depend on what the same interpreter did before (module-level state, shared option defaults)
-        lab = s if i else "%s+reversed" % s
-        runs[lab], err = _pipe(dict(spec, order="reversed") if i == 0 else spec, s, scratch)
+        tz = TZS[i % len(TZS)]
+        lab = ("%s+tz" % s) if i else "%s+reversed+tz" % s
+        runs[lab], err = _pipe(dict(spec, order="reversed") if i == 0 else spec, s, scratch, extra_env={"TZ": tz})
         if runs[lab] is None:
             ctx.inconclusive("pipeline runner failed under seed %s: %s" % (s, err))
             return
@@ -644,7 +649,8 @@ def run_seeds(case, ctx, rnd):
 
 
 def _kind_of_label(lab):
-    return "environment" if "+env" in lab else "epoch" if "+epoch" in lab else "process-history" if "+reversed" in lab else "hashseed"
+    return ("environment" if "+env" in lab else "epoch" if "+epoch" in lab else "process-history" if "+reversed" in lab
+            else "environment" if "+tz" in lab else "hashseed")
 
 
 def _attribute(spec, job, base_rec, lab, rand_seed, seed0, extra, cwd2, scratch, ctx):
@@ -666,9 +672,16 @@ def _attribute(spec, job, base_rec, lab, rand_seed, seed0, extra, cwd2, scratch,
         # same seed, same environment, another process: clock, pid or address dependence
         r2, _ = _pipe(dict(one, clock_shift=CLOCK_SHIFT), seed0, scratch)
         return "clock" if (r2 and (r2["clock"].get(jid) or alone["clock"].get(jid))) else "unstable-across-processes"
-    if "+reversed" in lab:
+    if "+reversed" in lab or "+tz" in lab:
         r, _ = _pipe(one, lab.split("+")[0], scratch)
-        return "hashseed" if differs(r) else "process-history"
+        if differs(r):
+            return "hashseed"
+        tz = next((t for i, t in enumerate(TZS) if True), TZS[0])
+        for tz in TZS:
+            r, _ = _pipe(one, seed0, scratch, extra_env={"TZ": tz})
+            if differs(r):
+                return "timezone"
+        return "process-history" if "+reversed" in lab else "environment"
     if "+env" not in lab:
         return "hashseed"
     r, _ = _pipe(one, rand_seed, scratch)
@@ -772,11 +785,31 @@ def run_twice(case, ctx, rnd):
 
 
 # ------------------------------------------------------------------ lazy x access order (in process)
+def env_epoch_diff():
+    import calendar
+
+    return -calendar.timegm((1904, 1, 1, 0, 0, 0, 0, 0, 0))
+
+
+LAZY_EDITS = {"cmap": ("cmap.add", 1), "hmtx": ("hmtx.advance", 0), "name": ("name.add", 2), "OS/2": ("OS/2.usWeightClass", 1),
+              "post": ("post.underlineThickness", 0), "head": ("head.lowestRecPPEM", 1), "hhea": ("hhea.lineGap", 0)}
+
+
 def _lazy_input(case):
     rel = case["font"]
     member = case.get("member")
     if rel == "<built>":
-        return corpus.save_bytes(_built_font(member or 0))
+        font = _built_font(member or 0)
+        keep = os.environ.get("SOURCE_DATE_EPOCH")
+        try:
+            if (member or 0) % 4 >= 2 and "post" in font:
+                font["post"].formatType = 3.0          # no glyph names in the file: they are made up from cmap on loading
+            if (member or 0) % 2:
+                os.environ["SOURCE_DATE_EPOCH"] = "0"  # head.created/modified exactly at the Unix epoch
+                font["head"].created = font["head"].modified = env_epoch_diff()   # 0x7C25B080
+            return corpus.save_bytes(font)
+        finally:
+            os.environ["SOURCE_DATE_EPOCH"] = keep if keep is not None else env.EPOCH
     if rel.startswith("fea:"):
         from vmon import c16_pipe
 
@@ -801,7 +834,17 @@ def run_lazyorder(case, ctx, rnd):
     for lazy in (None, True, False):
         for p in range(case["perms"]):
             variants.append((lazy, p))
+    edits = bool(case.get("edits"))
     results = []
+    if case.get("own_output") and not edits:
+        # the input was just written by the library itself: loading and saving it without touching anything,
+        # or after decompiling everything, must give back the same file (fixed point on its own output)
+        try:
+            results.append(("untouched", 0, [], corpus.save_bytes(corpus.open_bytes(data, lazy=True)), None, None))
+        except (CaseTimeout, MemoryError):
+            raise
+        except Exception as e:
+            results.append(("untouched", 0, None, None, type(e).__name__, None))
     for lazy, p in variants:
         dump = None
         try:
@@ -809,8 +852,16 @@ def run_lazyorder(case, ctx, rnd):
             tags = [t for t in f.keys() if t != "GlyphOrder"]
             if p:
                 random.Random("%s/%d/%s" % (rel, p, case["seed"])).shuffle(tags)
+            if p == 1 and "cmap" in tags:
+                tags.remove("cmap")
+                tags.insert(0, "cmap")          # the table that makes up glyph names, touched before all others
+            elif p == 2:
+                f.getGlyphOrder()               # ... and here the glyph order is settled before any table is touched
             for t in tags:
-                f[t]
+                tb = f[t]
+                if edits and t in LAZY_EDITS:
+                    # the same edits in every variant, made through the object the first access returned
+                    _edit(f, LAZY_EDITS[t][0], LAZY_EDITS[t][1], table=tb)
             if p % 2 == 0:
                 # dump before saving (the dump walks the lazily read structures in its own order)
                 s = io.StringIO()
@@ -935,8 +986,9 @@ EDITS = ["head.lowestRecPPEM", "OS/2.usWeightClass", "hhea.lineGap", "post.under
          "hmtx.all", "glyf.far"]
 
 
-def _edit(font, name, k):
-    """Deterministic edits through the public object model; returns False when not applicable."""
+def _edit(font, name, k, table=None):
+    """Deterministic edits through the public object model; returns False when not applicable.
+    `table`: the table object the caller already obtained from font[tag] (edited as is, not fetched again)."""
     try:
         if name == "flavor":
             font.flavor = [None, "woff", None][k % 3] if font.flavor is None else None
@@ -944,7 +996,7 @@ def _edit(font, name, k):
         tag = {"OS/2": "OS/2", "CFF": "CFF "}.get(name.split(".")[0], name.split(".")[0])
         if tag not in font or (name == "glyf.far" and "gvar" in font):
             return False
-        t = font[tag]
+        t = table if table is not None else font[tag]
         if name == "head.lowestRecPPEM":
             t.lowestRecPPEM = (t.lowestRecPPEM + 1 + k) % 200
         elif name == "OS/2.usWeightClass":
@@ -1010,7 +1062,9 @@ def _edit(font, name, k):
 
 def _set_epoch(k):
     """History step 'time passes': the pinned clock moves on (an input of both compared histories)."""
-    os.environ["SOURCE_DATE_EPOCH"] = str(int(env.EPOCH) + 100000 * (int(k) + 1))
+    # k == 0: the Unix epoch itself (head.modified becomes exactly 1970-01-01, a boundary of the reader's
+    # "looks like a Unix timestamp" heuristic)
+    os.environ["SOURCE_DATE_EPOCH"] = "0" if int(k) == 0 else str(int(env.EPOCH) + 100000 * (int(k) + 1))
 
 
 class _Boom(RuntimeError):
